@@ -2,3 +2,6 @@ import FedjaxVerif.Model.Proto
 import FedjaxVerif.Model.Batching
 import FedjaxVerif.Handlers.C03
 import FedjaxVerif.Props.C03
+import FedjaxVerif.Handlers.C02
+import FedjaxVerif.Model.ForEach
+import FedjaxVerif.Props.C02
